@@ -1,7 +1,7 @@
 (* C14 — Epoll mode: one worker per connection, requests in order, no lost wakeups.  Pinned statements.
    [step]/[run] (Model/Epoll.v): kernel (interest set, level-triggered readiness), event loop, worker
    jobs and clients as one transition system; the theorems hold for every trace = every interleaving. *)
-From KV Require Import Lib.Bytes Model.Epoll Proofs.Epoll.
+From KV Require Import Lib.Bytes Model.Epoll Proofs.Epoll Proofs.EpollLive.
 
 (* never two jobs for one connection, queued or executing; a job exists only under the in_flight flag *)
 Theorem C14_one_worker : forall tr s c k, run ep_init tr = Some s -> nth_error (e_conns s) c = Some k ->
@@ -39,3 +39,48 @@ Example C14_ex_run :
   | None => false
   end = true.
 Proof. vm_compute. reflexivity. Qed.
+
+(* ---- "eventually dispatched", beyond enabledness (Proofs/EpollLive.v) ---- *)
+
+(* the loop cannot finish a batch without looking, exactly once, at every connection epoll_wait reported (and at no other) *)
+Theorem C14_batch_exact : forall tr1 cs tr2 s',
+  run ep_init (tr1 ++ LWait cs :: tr2 ++ [LBatchEnd]) = Some s' -> existsb isbatchend tr2 = false ->
+  forall c, cnt (isevent c) tr2 = if existsb (Nat.eqb c) cs then 1 else 0.
+Proof. exact batch_exact. Qed.
+Print Assumptions C14_batch_exact.
+
+(* a reported connection that has no job is dispatched (a job is queued, the flag set) before the batch ends: no other actor
+   can change its flags in between *)
+Theorem C14_reported_dispatched : forall tr1 cs tr2 s' s1 c k,
+  run ep_init (tr1 ++ LWait cs :: tr2 ++ [LBatchEnd]) = Some s' -> existsb isbatchend tr2 = false ->
+  run ep_init tr1 = Some s1 -> nth_error (e_conns s1) c = Some k -> In c cs ->
+  k_in_flight k = false -> k_closed k = false ->
+  exists pre post sm k',
+    tr2 = pre ++ LEvent c ODispatched :: post /\
+    existsb (isevent c) pre = false /\ existsb (isevent c) post = false /\
+    run ep_init (tr1 ++ LWait cs :: pre ++ [LEvent c ODispatched]) = Some sm /\
+    nth_error (e_conns sm) c = Some k' /\ k_jobs k' = [JQueued] /\ k_in_flight k' = true.
+Proof. exact reported_idle_dispatched. Qed.
+Print Assumptions C14_reported_dispatched.
+
+(* no deadlock: inside a batch the loop always has a move; and while some connection is ready the server side (loop or a
+   worker job - not a client, not an accept, not an empty wait) has an enabled step *)
+Theorem C14_loop_never_blocks : forall s, e_loop s = EBatch ->
+  exists l s', is_loop_label l = true /\ step s l = Some s'.
+Proof. exact loop_never_blocks. Qed.
+Theorem C14_server_can_move : forall s c k, reachable s -> nth_error (e_conns s) c = Some k -> ready k = true ->
+  exists l s', server_move l = true /\ step s l = Some s'.
+Proof. exact server_can_move. Qed.
+Print Assumptions C14_server_can_move.
+
+(* the server's own work is bounded by its input: dispatches, stale events, frees and job steps of any trace from the start
+   are at most 10 per client send + 9 per client close + 3 per re-arm at end of input (busy events of a level-triggered
+   loop while a job is in flight are NOT bounded: C14_busy_unbounded) *)
+Theorem C14_work_bounded : forall tr s, run ep_init tr = Some s ->
+  work tr <= 10 * cnt issend tr + 9 * cnt isclose tr + 3 * eof_rearms ep_init tr.
+Proof. exact server_work_from_init. Qed.
+Print Assumptions C14_work_bounded.
+Theorem C14_busy_unbounded :
+  ~ exists f, forall s tr s', reachable s -> existsb isenv tr = false -> run s tr = Some s' -> cnt isbusy tr <= f s.
+Proof. exact busy_bound_refuted. Qed.
+Print Assumptions C14_busy_unbounded.
